@@ -7,7 +7,7 @@
 
    READER  {"ev":"tree", blobs, nodes, root, size, open}     a new part tree has been stored (reset)
            {"ev":"readat", rs:[[off, len, res, [ids]]...]}    FileReader.ReadAt for every (off, len)
-           {"ev":"seqread", buf, chunks:[[ids]...], res}       a fresh reader, Read(buf) until EOF
+           {"ev":"seqread", runs:[[buf, [[res, ids]...]]...]}  fresh readers, Read(buf) until EOF, 5 buffer sizes
            {"ev":"rop", op:"new"|"seek"|"read", ...}          one reader object driven step by step
            {"ev":"chunks", parts:[[kind, ref, off, size]...]}  ForeachChunk
    WRITER  {"ev":"wstart", len}                                a new WriteFileFromReader call (reset)
@@ -45,7 +45,7 @@ TTree == /\ Is("tree") /\ Step
          /\ UNCHANGED <<wvars, svars>>
          /\ IF ~WellFormed(rF', rRoot') THEN Viol(<<"tree", "input-not-well-formed">>) /\ dead' = TRUE
             ELSE IF Ev.open # "ok" \/ Ev.size # SizeOf(rF', rRoot')
-                 THEN Viol(<<"open", StartClass(rF', rRoot', 0), <<"ok", SizeOf(rF', rRoot')>>, <<Ev.open, Ev.size>>>>) /\ dead' = TRUE
+                 THEN Viol(<<"open", StartClass(rF', rRoot', 0), "size", "unexplained", <<"ok", SizeOf(rF', rRoot')>>, <<Ev.open, Ev.size>>>>) /\ dead' = TRUE
                  ELSE dead' = FALSE
 
 (* io.ReaderAt: all the bytes [off, off+len) that exist, and an error exactly when they are fewer than len *)
@@ -61,6 +61,7 @@ TReadAt == /\ Is("readat") /\ ~dead /\ Step /\ UNCHANGED <<vars, dead>>
                      devs == {j \in bad : Ev.rs[j][4] = MReadAt(rF, rRoot, Ev.rs[j][1], Ev.rs[j][2])} IN
                  Viol(<<"readat", StartClass(rF, rRoot, r[1]),
                         IF r[4] # Slice(D, r[1], r[2]) THEN "bytes" ELSE "res",
+                        IF devs = bad THEN "as-deviation" ELSE "unexplained",
                         [off |-> r[1], len |-> r[2], expected |-> Slice(D, r[1], r[2]), got |-> r[4], res |-> r[3]],
                         Cardinality(bad), Len(Ev.rs),
                         \* how many of the bad reads are exactly what the mechanism with the believed deviation returns
@@ -76,16 +77,30 @@ SeqReadBad(chunks, i, pos, buf) ==      \* 0 = fine, else the index of the first
        IF r \notin ReadRepliesAt(rF, rRoot, pos, buf) THEN i
        ELSE IF c[1] = "eof" THEN (IF i = Len(chunks) THEN 0 ELSE i + 1)
        ELSE SeqReadBad(chunks, i + 1, pos + Len(c[2]), buf)
+(* what the mechanism (with the believed deviations of the configuration) delivers for sequential reads *)
+RECURSIVE MSeq(_, _)
+MSeq(pos, buf) == LET size == SizeOf(rF, rRoot) IN
+                  IF pos >= size THEN <<>>
+                  ELSE LET r == MReadAt(rF, rRoot, pos, Min2(buf, size - pos)) IN
+                       IF Len(r) = 0 THEN <<>> ELSE r \o MSeq(pos + Len(r), buf)
 RECURSIVE CatChunks(_, _)
 CatChunks(chunks, i) == IF i > Len(chunks) THEN <<>> ELSE chunks[i][2] \o CatChunks(chunks, i + 1)
+RunBad(run) ==       \* run = <<buf, chunks>>
+  LET b == SeqReadBad(run[2], 1, 0, run[1])
+      all == CatChunks(run[2], 1) IN
+  ~(b = 0 /\ all = Denote(rF, rRoot) /\ run[2][Len(run[2])][1] = "eof")
 TSeqRead == /\ Is("seqread") /\ ~dead /\ Step /\ UNCHANGED <<vars, dead>>
-            /\ LET b == SeqReadBad(Ev.chunks, 1, 0, Ev.buf)
-                   all == CatChunks(Ev.chunks, 1)
-                   D == Denote(rF, rRoot) IN
-               IF b = 0 /\ all = D /\ Ev.chunks[Len(Ev.chunks)][1] = "eof" THEN TRUE ELSE
-               Viol(<<"seqread", StartClass(rF, rRoot, Len(CatChunks(SubSeq(Ev.chunks, 1, Max2(b, 1) - 1), 1))),
+            /\ LET bad == {i \in 1..Len(Ev.runs) : RunBad(Ev.runs[i])} IN
+               IF bad = {} THEN TRUE ELSE
+               LET run == Ev.runs[CHOOSE j \in bad : \A k \in bad : j <= k]
+                   b == SeqReadBad(run[2], 1, 0, run[1])
+                   all == CatChunks(run[2], 1)
+                   D == Denote(rF, rRoot)
+                   devs == {i \in bad : CatChunks(Ev.runs[i][2], 1) # D /\ CatChunks(Ev.runs[i][2], 1) = MSeq(0, Ev.runs[i][1])} IN
+               Viol(<<"seqread", StartClass(rF, rRoot, Len(CatChunks(SubSeq(run[2], 1, Max2(b, 1) - 1), 1))),
                       IF all = D THEN "res" ELSE "bytes",
-                      [buf |-> Ev.buf, expected |-> D, got |-> all, firstbad |-> b]>>)
+                      IF devs = bad THEN "as-deviation" ELSE "unexplained",
+                      [buf |-> run[1], expected |-> D, got |-> all, firstbad |-> b], Cardinality(bad), Len(Ev.runs)>>)
 
 (* one reader object, step by step: the module's own actions *)
 TRopNew == /\ Is("rop") /\ Ev.op = "new" /\ Step
@@ -96,7 +111,7 @@ TRopSeek == /\ Is("rop") /\ Ev.op = "seek" /\ ~dead /\ Step /\ UNCHANGED <<wvars
             /\ LET exp == RSeekReply(Ev.whence, Ev.off) IN
                IF exp.res = Ev.res /\ (Ev.res = "ok" => exp.pos = Ev.pos)
                THEN RSeek(Ev.whence, Ev.off) /\ dead' = FALSE
-               ELSE /\ Viol(<<"seek", StartClass(rF, rRoot, rPos), "res", [expected |-> exp, got |-> <<Ev.res, Ev.pos>>]>>)
+               ELSE /\ Viol(<<"seek", StartClass(rF, rRoot, rPos), "res", "unexplained", [expected |-> exp, got |-> <<Ev.res, Ev.pos>>]>>)
                     /\ dead' = TRUE /\ UNCHANGED rvars
 TRopRead == /\ Is("rop") /\ Ev.op = "read" /\ ~dead /\ Step /\ UNCHANGED <<wvars, svars>>
             /\ LET got == RR("read", Ev.res, rPos + Len(Ev.ids), Ev.ids) IN
@@ -104,6 +119,8 @@ TRopRead == /\ Is("rop") /\ Ev.op = "read" /\ ~dead /\ Step /\ UNCHANGED <<wvars
                THEN RRead(Ev.n) /\ rReply' = got /\ dead' = FALSE
                ELSE /\ Viol(<<"read", StartClass(rF, rRoot, rPos),
                               IF Ev.ids = ReadAt(rF, rRoot, rPos, Len(Ev.ids)) THEN "res" ELSE "bytes",
+                              IF Ev.ids # ReadAt(rF, rRoot, rPos, Len(Ev.ids)) /\ Ev.ids = MReadAt(rF, rRoot, rPos, Min2(Ev.n, Max2(SizeOf(rF, rRoot) - rPos, 0)))
+                                 THEN "as-deviation" ELSE "unexplained",
                               [pos |-> rPos, n |-> Ev.n, expected |-> ReadAt(rF, rRoot, rPos, Ev.n), got |-> Ev.ids, res |-> Ev.res]>>)
                     /\ dead' = TRUE /\ UNCHANGED rvars
 TRopSkip == /\ Is("rop") /\ Ev.op # "new" /\ dead /\ Step /\ UNCHANGED <<vars, dead>>
@@ -113,7 +130,7 @@ TChunks == /\ Is("chunks") /\ ~dead /\ Step /\ UNCHANGED <<vars, dead>>
            /\ LET w == ChunkWalk(rF, rRoot)
                   exp == [i \in 1..Len(w) |-> PartTuple(w[i])] IN
               IF Ev.res = "ok" /\ Ev.parts = exp THEN TRUE ELSE
-              Viol(<<"chunks", StartClass(rF, rRoot, 0), "parts", [expected |-> exp, got |-> Ev.parts, res |-> Ev.res]>>)
+              Viol(<<"chunks", StartClass(rF, rRoot, 0), "parts", "unexplained", [expected |-> exp, got |-> Ev.parts, res |-> Ev.res]>>)
 
 TReaderSkip == /\ l <= Len(Trace) /\ Ev.ev \in {"readat", "seqread", "chunks"} /\ dead /\ Step /\ UNCHANGED <<vars, dead>>
 
